@@ -247,3 +247,85 @@ Example C11_412_example :
   /\ make_conditional pd0 (mk_env None None None None (S_ [42])) 200 (S_ t_abc) None AFalse None = Ok (MCResp 200 None).
 Proof. exact ex_412. Qed.
 Print Assumptions C11_412_example.
+
+(* ================================================================ the header grammars (F) *)
+(* the parsers are total: parse_etags on any text without LF (fuel never runs out), parse_range_header always
+   (Range.__init__ never rejects what the loop built) *)
+Theorem C11_parse_etags_total : forall v,
+  match v with Some s => mem LF s = false | None => True end -> exists e, parse_etags v = Ok e.
+Proof. exact parse_etags_total. Qed.
+Print Assumptions C11_parse_etags_total.
+
+Theorem C11_parse_range_header_total : forall v, exists r, parse_range_header v = Ok r.
+Proof. exact parse_range_header_total. Qed.
+Print Assumptions C11_parse_range_header_total.
+
+(* str(int) is read back by _plain_int: the numbers in Content-Range and Content-Length mean what they say *)
+Theorem C11_decimal_roundtrip : forall n,
+  plain_int (dec_N n) = Some (Z.of_N n) /\ plain_int (DASH :: dec_N n) = Some (- Z.of_N n)%Z.
+Proof. exact (fun n => conj (plain_int_dec n) (plain_int_neg_dec n)). Qed.
+Print Assumptions C11_decimal_roundtrip.
+
+(* Range: bytes=a-b on a resource of L > 0 bytes, as the only conditional header of a GET:
+   206 for [a, min(b+1, L)) when a < L, otherwise 416 *)
+Theorem C11_range_first_last : forall pd a b L acc etag lm st0,
+  a <= b -> 0 < L -> accept_truthy acc = true ->
+  make_conditional pd (range_env (hdr_first_last a b)) st0 etag lm acc (Some (Z.of_N L)) =
+  if a <? L then served (Z.of_N a) (Z.min (Z.of_N b + 1) (Z.of_N L)) (Z.of_N L) acc
+  else Ok (MC416 (Some (Z.of_N L))).
+Proof. exact grammar_first_last. Qed.
+Print Assumptions C11_range_first_last.
+
+(* Range: bytes=a- *)
+Theorem C11_range_first_open : forall pd a L acc etag lm st0,
+  0 < L -> accept_truthy acc = true ->
+  make_conditional pd (range_env (hdr_first_open a)) st0 etag lm acc (Some (Z.of_N L)) =
+  if a <? L then served (Z.of_N a) (Z.of_N L) (Z.of_N L) acc else Ok (MC416 (Some (Z.of_N L))).
+Proof. exact grammar_first_open. Qed.
+Print Assumptions C11_range_first_open.
+
+(* Range: bytes=-n with n > 0: the last n bytes; a suffix longer than the resource is answered 416 (what the
+   code does - the property does not pin that case) *)
+Theorem C11_range_suffix : forall pd n L acc etag lm st0,
+  0 < n -> 0 < L -> accept_truthy acc = true ->
+  make_conditional pd (range_env (hdr_suffix n)) st0 etag lm acc (Some (Z.of_N L)) =
+  if n <=? L then served (Z.of_N L - Z.of_N n) (Z.of_N L) (Z.of_N L) acc else Ok (MC416 (Some (Z.of_N L))).
+Proof. exact grammar_suffix. Qed.
+Print Assumptions C11_range_suffix.
+
+(* entity-tag lists: a rendered list of (weak?, opaque) tags parses back to exactly those tags, and the
+   rendering of one tag is inverted by unquote_etag *)
+Theorem C11_etag_list_grammar : forall l,
+  forallb tag_ok l = true ->
+  parse_etags (Some (render_tags l)) = Ok (mk_etags (strongs l) (weaks l) false).
+Proof. exact parse_etags_render. Qed.
+Print Assumptions C11_etag_list_grammar.
+
+Theorem C11_etag_unquote : forall w (t : str),
+  forallb etagc t = true -> unquote_etag (Some (render_tag (w, t))) = (Some t, Some w).
+Proof. exact unquote_render. Qed.
+Print Assumptions C11_etag_unquote.
+
+(* If-None-Match with a list of tags against ETag (w, cur): 304 exactly when a listed tag has the same opaque
+   tag (weak comparison), whatever If-Modified-Since says; If-Match: 412 exactly when no strong listed tag has
+   it; the star forms *)
+Theorem C11_if_none_match_grammar : forall pd l w (cur : str) ims lm st0 acc cl,
+  forallb tag_ok l = true -> l <> [] -> forallb etagc cur = true ->
+  make_conditional pd (inm_env (render_tags l) ims) st0 (Some (render_tag (w, cur))) lm acc cl =
+  Ok (MCResp (if existsb (fun t : tag => list_eqb cur (snd t)) l then 304 else st0) None).
+Proof. exact grammar_if_none_match. Qed.
+Print Assumptions C11_if_none_match_grammar.
+
+Theorem C11_if_match_grammar : forall pd l w (cur : str) lm st0 acc cl,
+  forallb tag_ok l = true -> l <> [] -> forallb etagc cur = true ->
+  make_conditional pd (im_env (render_tags l) None) st0 (Some (render_tag (w, cur))) lm acc cl =
+  Ok (MCResp (if existsb (fun t : tag => negb (fst t) && list_eqb cur (snd t)) l then st0 else 412) None).
+Proof. exact grammar_if_match. Qed.
+Print Assumptions C11_if_match_grammar.
+
+Theorem C11_star_grammar : forall pd w (cur : str) ims lm st0 acc cl,
+  forallb etagc cur = true ->
+  make_conditional pd (inm_env [STAR] ims) st0 (Some (render_tag (w, cur))) lm acc cl = Ok (MCResp 304 None)
+  /\ make_conditional pd (im_env [STAR] None) st0 (Some (render_tag (w, cur))) lm acc cl = Ok (MCResp st0 None).
+Proof. exact grammar_star. Qed.
+Print Assumptions C11_star_grammar.
